@@ -6,11 +6,9 @@ T11 = '_ZN11xercesc_4_010XMLChar1_119fgCharCharsTable1_1E'
 HARNESSES = [
  dict(name='formatter', entry='harness_formatter', srcs=['C12/formatter.cpp'],
       tus=['framework/XMLFormatter.cpp', 'util/XMLString.cpp', 'util/XMLChar.cpp'], const_tables=[T10, T11],
-      defs={'quick': {'N': 1, 'XERCES_VERIF_TMPBUF': 64}, 'thorough': {'N': 2, 'XERCES_VERIF_TMPBUF': 64}}, unwind={'quick': 2, 'thorough': 2}, unwind_cap=16, timeout={'quick': 900, 'thorough': 1700}),
+      defs={'quick': {'N': 1, 'XERCES_VERIF_TMPBUF': 64}, 'thorough': {'N': 2, 'XERCES_VERIF_TMPBUF': 64}}, unwind={'quick': 2, 'thorough': 2}, unwind_cap=24, timeout={'quick': 900, 'thorough': 3000}, mem_gb=24),
 ]
 LEVEL_TEXT = ('Bounded model checking of the real escaping/transcoding layer of the serialiser against a reference serialisation, for ALL inputs of N UTF-16 units x escape modes x XML versions: '
               'XMLFormatter escapes exactly the characters its mode requires and writes every unrepresentable code point as a character reference (supplementary characters as one reference).')
-LEVEL_NOTE = ('NOT claimed: DOMLSSerializer tree walk, namespace fix-up, CDATA splitting, re-parse equality (whole-system). Output encoding: 7-bit stub with the US-ASCII transcoder contract (real transcoders: C05); N = 2 units (quick) / 3. '
-              'Known finding listed in known_findings.json (read one unit past the buffer in specialFormat).')
+LEVEL_NOTE = ('NOT claimed: DOMLSSerializer tree walk, namespace fix-up, CDATA splitting, re-parse equality (whole-system). Output encoding: 7-bit stub with the US-ASCII transcoder contract (real transcoders: C05); N = 1 unit (quick) / 2 (thorough: surrogate pairs, escape followed by data). Ill-formed UTF-16 (lone surrogates) is assumed away.')
 
-READY = False
